@@ -440,7 +440,8 @@ def guard_text(test, polarity=True):
     m = _re.fullmatch(r"not (self\.\w+) == np\.inf", t) or _re.fullmatch(r"not \((self\.\w+) == np\.inf\)", t)
     if m:
         t = "%s != np.inf" % m.group(1)
-    m = _re.fullmatch(r"(self\.\w+) != None", t) or _re.fullmatch(r"not (self\.\w+) is None", t) or _re.fullmatch(r"None is not (self\.\w+)", t)
+    m = _re.fullmatch(r"(self\.\w+) != None", t) or _re.fullmatch(r"not (self\.\w+) is None", t) or _re.fullmatch(r"None is not (self\.\w+)", t) \
+        or _re.fullmatch(r"not \((self\.\w+) is None\)", t)
     if m:
         t = "%s is not None" % m.group(1)
     return t if polarity else "not (%s)" % t
@@ -468,7 +469,14 @@ def analyse_hook(repo, cls, gens):
 
 
 def _interp_block(repo, cls, fn, stmts, ctx, res, gens):
-    for st in stmts:
+    for k, st in enumerate(stmts):
+        # guard clause:  if <test>: return   -> the rest of the block runs under `not <test>`
+        if isinstance(st, ast.If) and not st.orelse and len(st.body) == 1 and isinstance(st.body[0], ast.Return) and st.body[0].value is None \
+                and _is_same_sample_test(st.test, ctx) is None:
+            ctx2 = dict(ctx)
+            ctx2["guards"] = ctx["guards"] + [guard_text(ast.UnaryOp(op=ast.Not(), operand=st.test))]
+            _interp_block(repo, cls, fn, stmts[k + 1:], ctx2, res, gens)
+            return
         _interp_stmt(repo, cls, fn, st, ctx, res, gens)
 
 
@@ -545,14 +553,16 @@ def _interp_stmt(repo, cls, fn, st, ctx, res, gens):
                 ctx2["env"][idx] = Opaque("index", suffix)
             _interp_block(repo, cls, fn, st.body, ctx2, res, gens)
             return
-        if isinstance(st.iter, ast.Call) and call_name(st.iter) == "range" and len(st.iter.args) == 1 \
-                and isinstance(st.target, ast.Name):
-            arg = st.iter.args[0]
-            if isinstance(arg, ast.Call) and call_name(arg) == "get_nb_blocks":
-                ctx2["loops"] = ctx["loops"] + [{"kind": "blocks", "var": st.target.id, "node": st}]
-                ctx2["env"][st.target.id] = Opaque("block", "k")
-                _interp_block(repo, cls, fn, st.body, ctx2, res, gens)
-                return
+        bvar = _block_loop_var(st, ctx)
+        if bvar is not None:
+            ctx2["loops"] = ctx["loops"] + [{"kind": "blocks", "var": bvar, "node": st}]
+            ctx2["env"][bvar] = Opaque("block", "k")
+            if isinstance(st.target, ast.Tuple):
+                for e in st.target.elts:
+                    if isinstance(e, ast.Name) and e.id != bvar:
+                        ctx2["env"][e.id] = Opaque("blockname")
+            _interp_block(repo, cls, fn, st.body, ctx2, res, gens)
+            return
         if _mentions_sink(st):
             raise AnalysisError("%s: loop `%s` feeds a constraint sink but is outside the analysed fragment (%s)"
                                 % (cls.name, norm_stmt(st)[:80], where))
@@ -583,6 +593,14 @@ def _interp_stmt(repo, cls, fn, st, ctx, res, gens):
             r = list_role_of(st.value.args[0]) if st.value.args else None
             ctx["env"][tgt.id] = Opaque("len", r)
             return
+        if isinstance(tgt, ast.Name) and isinstance(st.value, ast.Call) and call_name(st.value) == "get_nb_blocks":
+            ctx["env"][tgt.id] = Opaque("nblocks")
+            return
+        if isinstance(tgt, ast.Name) and isinstance(st.value, ast.ListComp) and len(st.value.generators) == 1 and not st.value.generators[0].ifs:
+            g0 = st.value.generators[0]
+            if isinstance(g0.iter, ast.Call) and call_name(g0.iter) == "range" and len(g0.iter.args) == 1 and _is_block_count(g0.iter.args[0], ctx):
+                ctx["env"][tgt.id] = Opaque("blocklist")
+                return
         ev = _hook_env_eval(cls, ctx)
         try:
             val = ev.ev(st.value)
@@ -645,6 +663,28 @@ def _interp_stmt(repo, cls, fn, st, ctx, res, gens):
         raise AnalysisError("%s: statement `%s` touches a constraint sink in an unrecognised way (%s)"
                             % (cls.name, norm_stmt(st)[:80], where))
     res.skipped.append(norm_stmt(st)[:100])
+
+
+def _is_block_count(e, ctx):
+    """`self.partition.get_nb_blocks()` or a local bound to it"""
+    if isinstance(e, ast.Call) and call_name(e) == "get_nb_blocks":
+        return True
+    if isinstance(e, ast.Name):
+        v = ctx["env"].get(e.id)
+        return isinstance(v, Opaque) and v.tag == "nblocks"
+    return False
+
+
+def _block_loop_var(st, ctx):
+    """Name of the block index of a loop over all blocks: range(<number of blocks>), enumerate(<per-block list>), or None."""
+    it = st.iter
+    if isinstance(it, ast.Call) and call_name(it) == "range" and len(it.args) == 1 and isinstance(st.target, ast.Name) and _is_block_count(it.args[0], ctx):
+        return st.target.id
+    base, enum = _iter_base(it)
+    if enum and isinstance(base, ast.Name) and isinstance(ctx["env"].get(base.id), Opaque) and ctx["env"][base.id].tag == "blocklist" \
+            and isinstance(st.target, ast.Tuple) and len(st.target.elts) == 2 and isinstance(st.target.elts[0], ast.Name):
+        return st.target.elts[0].id
+    return None
 
 
 def _is_same_sample_test(test, ctx):
